@@ -183,7 +183,11 @@ def Block.init (c : Codec) (b : Block) (o : Oti) (k blockSize sbn : Nat) : InitR
   | .rs2m => .err            -- `log::warn!("Not implemented")`: no decoder exists
   | .raptorQ =>
     match o.ss with
-    | some (.rq z n al) => done (some (.rq sbn k o.e (.rq z n al) [] none))
+    | some (.rq z n al) =>
+      -- /repo 2addd2e (agent recv): the RaptorQ library asserts on Al = 0, Al not dividing E, N = 0; a Scheme-Specific-Info from the
+      -- FDT is not validated like the EXT_FTI
+      if al = 0 ∨ o.e % al ≠ 0 ∨ n = 0 then .err else
+      done (some (.rq sbn k o.e (.rq z n al) [] none))
     | _ => .err
   | .raptor =>
     if o.ss.isNone then .err else done (some (.raptor k blockSize [] none))
